@@ -1958,7 +1958,7 @@ func runR205(c *core.Ctx) {
 			}
 		}
 		collect(cfd.Type)
-		for _, fl := range core.FuncLitsIn(cfd.Body) {
+		for _, fl := range core.AllFuncLits(cfd.Body) {
 			collect(fl.Type)
 		}
 		nParams += len(params)
